@@ -276,7 +276,8 @@ def bounded(tier_name, rnd):
     return {"evaluations": evals, "distinct_nontrivial": evals, "exhaustive": True,
             "rule": "every payload of length 0..%d over the alphabet %r (all framing, escape and acknowledgement characters); per payload: pack "
                     "well-formedness, unpack round trip, byte-wise reception with junk / back-to-back packets / ack and nack bytes, bad checksum" % (maxlen, ALPHABET),
-            "bound": "payload length <= %d over a %d-character alphabet" % (maxlen, len(ALPHABET)), "violations": vio}
+            "bound": "payload length <= %d over a %d-character alphabet" % (maxlen, len(ALPHABET)), "violations": vio,
+            "samples": [{"payload": "a}#", "wire": "$a}]}\x03#..", "checked": "pack well-formed, unpack round trip, byte-wise reception, bad checksum"}]}
 
 
 def replay_bounded(inp):
